@@ -15,7 +15,7 @@ import (
 )
 
 var Spec = engine.Spec{
-	ID: "C13", Run: Run, QuickBud: 5 * time.Minute, ThorBud: 20 * time.Minute,
+	ID: "C13", Run: Run, MapOrders: true, QuickBud: 5 * time.Minute, ThorBud: 20 * time.Minute,
 	Technique: "explicit enumeration of a reflection-generated value set (bases + every single-field deviation + permutations + separator-bearing values): all pairs for symmetry / checksum agreement / discrimination / order-insensitivity against a canonical-content reference, all triples for transitivity",
 	Rule:      "value = base message (empty, sparse, fully populated by reflection) with one deviation (set/change/clear scalar, append/drop/change/permute list element, put/delete/change map entry, date +1s/+1ns, recursively in nested persons and external references) or a crafted separator value; case = ordered pair (i,j) or one row of the transitivity matrix",
 	Assume: []string{
@@ -370,6 +370,11 @@ func family(c *engine.Ctx, name string, vs []value, eq equaler, checksum func(m 
 					if ce != e1 {
 						return engine.Violate("checksum-agreement", "", "Equal(%s,%s)=%v but checksums equal=%v", a.Label, b.Label, e1, ce)
 					}
+				}
+				if checksum != nil {
+					t.Observe(fmt.Sprint(e1, checksum(a.Msg), checksum(b.Msg)))
+				} else {
+					t.Observe(fmt.Sprint(e1))
 				}
 				same := a.Canon == b.Canon
 				if e1 && !same {
